@@ -146,11 +146,13 @@ def rule_node_sem(ctx: RuleContext, p: Program, rid: str, max_items: int = 3) ->
                 raise possem.Raised(norm(st.exc.func) if isinstance(st.exc, ast.Call) else norm(st.exc) if st.exc is not None else 'raise')
             super().stmt(st, env)
 
-    def tok(label: str, kind: str = 'T') -> Any:
-        return possem.Obj('Tok', {'kind': kind}, label)
+    def tok(label: str, kind: str = 'T', text: str = 'x') -> Any:
+        # texts: the place-holder and the LAST token of every item are zero-width (a line-level item -- a posting, a directive -- ends with
+        # its end-of-line mark), separators are blanks, everything else has text
+        return possem.Obj('Tok', {'kind': kind, 'raw_text': '' if kind == 'P' else ' ' if kind in ('S', 'Sb') else text}, label)
 
     def mk_item(label: str) -> Any:
-        a, b = tok(f'{label}.first'), tok(f'{label}.last')
+        a, b = tok(f'{label}.first'), tok(f'{label}.last', text='')
         return possem.Obj('Item', {'first_token': a, 'last_token': b, 'tokens': [a, b], 'store': None}, label)
 
     def build(n: int) -> tuple[Any, list, list, Any, Any]:
